@@ -105,12 +105,13 @@ def coqc_file(path, timeout=600):
 
 def ensure_built(targets, timeout=1500):
     """make the given .vo targets (relative to coq/); generates the Makefile when missing."""
-    if not os.path.exists(os.path.join(COQ, 'Makefile')):
-        rc, txt = _run([os.path.join(VERIF, 'bin', 'mkcoqproject')], 120)
-        if rc != 0:
-            return rc, txt
-    cmd = ['timeout', str(timeout), 'make', '-C', COQ, '-j%d' % NCPU] + list(targets)
-    return _run(cmd, timeout + 30)
+    lock = os.path.join(COQ, '.build.lock')
+    # the Makefile lists every .v file: regenerate it so that new files are known
+    rc, txt = _run(['flock', lock, os.path.join(VERIF, 'bin', 'mkcoqproject')], 300)
+    if rc != 0:
+        return rc, txt
+    cmd = ['flock', lock, 'timeout', str(timeout), 'make', '-C', COQ, '-j%d' % NCPU] + list(targets)
+    return _run(cmd, timeout + 600)
 
 
 class CoqEvalError(Exception):
@@ -268,16 +269,25 @@ class Ctx:
 # ----------------------------------------------------------------------------------------
 # proof stage
 # ----------------------------------------------------------------------------------------
-def forbidden_scan():
+def dep_closure(pid):
+    """source files Properties/<pid>.v depends on (itself included), via coqdep -sort"""
+    rc, txt = _run(['coqdep', '-Q', 'theories', LOGICAL, '-sort', os.path.join('theories', 'Properties', pid + '.v')],
+                   120, cwd=COQ)
+    files = [os.path.join(COQ, w) for w in txt.split() if w.endswith('.v') and w.startswith('theories')]
+    return [f for f in files if os.path.exists(f)]
+
+
+def forbidden_scan(pid):
+    """Admitted / admit / Axiom / ... anywhere in the files the property's theorems depend on"""
     hits = []
-    for root, _, files in os.walk(THEORIES):
-        for fn in files:
-            if fn.endswith('.v'):
-                p = os.path.join(root, fn)
-                with open(p, errors='replace') as f:
-                    for i, line in enumerate(f, 1):
-                        if FORBIDDEN.search(line):
-                            hits.append('%s:%d: %s' % (os.path.relpath(p, VERIF), i, line.strip()[:120]))
+    files = dep_closure(pid)
+    if not files:
+        return ['coqdep produced no dependency list for ' + pid]
+    for p in files:
+        with open(p, errors='replace') as f:
+            for i, line in enumerate(f, 1):
+                if FORBIDDEN.search(line):
+                    hits.append('%s:%d: %s' % (os.path.relpath(p, VERIF), i, line.strip()[:120]))
     return hits
 
 
@@ -295,7 +305,7 @@ def proof_stage(pid):
     printed = re.findall(r'^\s*Print\s+Assumptions\s+([A-Za-z0-9_\']+)\s*\.', text, flags=re.M)
     info['theorems'] = theorems
     info['obligations'] = len(theorems)
-    hits = forbidden_scan()
+    hits = forbidden_scan(pid)
     if hits:
         info['broken'] = 'forbidden vernacular: ' + '; '.join(hits[:5])
         return info
